@@ -403,7 +403,20 @@ def _value_ok(exp, fld):
     return True
 
 
-def check_payload(d, p, tables, dec=None):
+def _warm(line):
+    """the same input first goes through OTHER decoder objects of this process (one with unit preferences and a
+    network map, one plain): what a fresh decoder returns afterwards must still be the database's reading"""
+    from nmea2000.decoder import NMEA2000Decoder
+    from nmea2000.consts import PhysicalQuantities as PQ
+    for kw in ({"preferred_units": {PQ.TEMPERATURE: "C", PQ.PRESSURE: "Bar", PQ.ANGLE: "deg", PQ.SPEED: "kts"},
+                "build_network_map": False}, {}):
+        try:
+            NMEA2000Decoder(**kw).decode_basic_string(line, True)
+        except Exception:  # noqa: BLE001
+            pass
+
+
+def check_payload(d, p, tables, dec=None, warm=False):
     """the property text on the real code for one (definition, payload): None or a witness dict"""
     from nmea2000.decoder import NMEA2000Decoder
     dec = dec or NMEA2000Decoder()
@@ -420,7 +433,9 @@ def check_payload(d, p, tables, dec=None):
     nbytes = max(d.get("Length", 0) if isinstance(d.get("Length"), int) else 0, (p.bit_length() + 7) // 8, 1)
     data = p.to_bytes(nbytes, "little")
     line = f"2020-01-01-00:00:00.000,3,{d['PGN']},7,255,{nbytes}," + ",".join(f"{b:02x}" for b in data)
-    base = {"kind": "decode", "pgn": d["PGN"], "id": d["Id"], "payload": p}
+    base = {"kind": "decode", "pgn": d["PGN"], "id": d["Id"], "payload": p, "warm": bool(warm)}
+    if warm:
+        _warm(line)
     exp, in_range = expected_fields(d, p, tables)
     has_offset = any(e.get("offset_field") for _, e in exp)
     try:
@@ -474,7 +489,7 @@ def search(ctx):
             pls = pls[:6] + rng.sample(pls[6:], 34)
         for label, p in pls:
             try:
-                w = check_payload(d, p, tables)
+                w = check_payload(d, p, tables, warm=(rng.random() < 0.4))
             except Exception as e:  # noqa: BLE001
                 w = {"kind": "decode", "pgn": d["PGN"], "id": d["Id"], "payload": p, "key": "oracle:exception",
                      "what": f"oracle failed on PGN {d['PGN']} {d['Id']} {p:#x}: {e!r}"}
@@ -490,6 +505,6 @@ def replay(ctx, data):
     d = next((x for x in PL.definitions() if x["PGN"] == w["pgn"] and x["Id"] == w["id"]), None)
     if d is None:
         return True
-    r = check_payload(d, int(w["payload"]), _lookup_tables())
+    r = check_payload(d, int(w["payload"]), _lookup_tables(), warm=bool(w.get("warm")))
     print("observed:", r["what"] if r else "property holds on this input")
     return r is not None and (r["key"] == w.get("key") or "key" not in w)
